@@ -311,6 +311,11 @@ func runGrid(root string, g gcase) string {
 						if sigAt.Before(deadline.Add(-2*gr - 30*time.Millisecond)) {
 							return fmt.Sprintf("interrupted-too-early: script %s was interrupted %v before the deadline, earlier than two grace periods (%v)", name, deadline.Sub(sigAt).Round(time.Millisecond), 2*gr)
 						}
+						// ... and not a whole grace period late either (judged only where a grace
+						// period is long against scheduling noise)
+						if gr >= 400*time.Millisecond && sigAt.After(deadline.Add(-gr)) {
+							return fmt.Sprintf("interrupted-too-late: script %s was interrupted %v before the deadline; it is due two grace periods (%v) before it", name, deadline.Sub(sigAt).Round(time.Millisecond), 2*gr)
+						}
 					}
 				} else if k != "stubborn" {
 					return fmt.Sprintf("no-interrupt: script %s (%s): the blocked program never received the interrupt", name, k)
@@ -360,6 +365,8 @@ func gridCases(th bool) []gcase {
 				gcase{[]string{"early", "slowok", "early"}, d, false, false})
 		}
 	}
+	// a deadline far enough away for the grace period to grow beyond its floor
+	out = append(out, gcase{[]string{"graceful3"}, 10000, false, false}, gcase{[]string{"stubborn", "early"}, 10000, false, false})
 	out = append(out, gcase{[]string{"ttyblock"}, 600, false, false})
 	return out
 }
